@@ -118,3 +118,12 @@ PROPS['C13'] = dict(
     assumptions=[],
     domain=[],
 )
+
+PROPS['C01'] = dict(
+    title='Byte and character tokenizers encode every character faithfully and losslessly',
+    groups=[dict(template='c01_byte.rs')],
+    claim='',
+    not_covered=[],
+    assumptions=[],
+    domain=[],
+)
